@@ -72,7 +72,9 @@ def all_pairs():
 
 
 VARIANTS = [("direct", 0, 0), ("direct", 2, 0), ("direct", 0, 1), ("direct", 2, 1),
-            ("link", 1, 0), ("link", 1, 1), ("link", 1, 2), ("link", 1, 3)]
+            ("link", 1, 0), ("link", 1, 1), ("link", 1, 2), ("link", 1, 3),
+            # a static output read by a static input several times (the converted data is cached by the input)
+            ("static", 1, 0), ("static", 1, 1)]
 
 
 def perturb(rng, spec):
@@ -175,15 +177,25 @@ def run_pair(case):
         else:
             src_mask = m[0] if masked in (2, 3) else fm.Mask.FLEX
             dst_mask = mask_for(gs, gd, m[0]) if masked == 3 else fm.Mask.FLEX
-            o = fm.Output(name="out", info=fm.Info(time=T(0), grid=gs, units="m", mask=src_mask))
-            i = fm.Input(name="in", info=fm.Info(time=None, grid=gd, units=None, mask=dst_mask))
+            static = case["via"] == "static"
+            o = fm.Output(name="out", static=static, info=fm.Info(time=None if static else T(0), grid=gs, units="m", mask=src_mask))
+            i = fm.Input(name="in", static=static, info=fm.Info(time=None, grid=gd, units=None, mask=dst_mask))
             o >> i
             i.ping()
             i.exchange_info()
             out["transform"] = "pass" if i._transform is None else "convert"
             payload = np.ma.masked_array(x[0].copy(), m[0].copy()) if masked == 1 else x[0].copy()
-            o.push_data(payload, T(0))
+            o.push_data(payload, None if static else T(0))
             res = i.pull_data(T(0))
+            if static:
+                # further reads (at other times) serve the same converted data
+                first = res.magnitude
+                for k in (1, 2):
+                    res = i.pull_data(T(k * 3_600_000_000))
+                    if not (np.array_equal(np.ma.getdata(res.magnitude), np.ma.getdata(first))
+                            and np.array_equal(np.ma.getmaskarray(res.magnitude), np.ma.getmaskarray(first))):
+                        out["reread_differs"] = k + 1
+                        break
             res = res.magnitude
         out["res"] = res
     except Exception as e:  # noqa
@@ -206,7 +218,7 @@ def compare_pair(case, impl, models):
         return {"observable": "compatible_with", "impl": impl["compatible"], "model": md["compatible"]}
     if impl["eq"] != md["eq"]:
         return {"observable": "__eq__", "impl": impl["eq"], "model": md["eq"]}
-    key = "deliver" if case["via"] == "link" else "trans"
+    key = "deliver" if case["via"] in ("link", "static") else "trans"
     if "err" in impl:
         exp = md[key] if "err" in md[key] else md["transform"]
         got = {"err": impl["err"]}
